@@ -380,8 +380,10 @@ def gen_dict_case(rng):
         elif r < 0.7:
             ops.append(["bpf_update", k, val,
                         rng.choice(["ANY", "ANY", "NOEXIST", "EXIST"])])
-        elif r < 0.88:
+        elif r < 0.8:
             ops.append(["bpf_lookup", k])
+        elif r < 0.88:
+            ops.append(["bpf_upsert", k, val])
         else:
             m = rng.randrange(len(vf))
             ops.append(["bpf_modify", k, m, sx(rng.getrandbits(64), vf[m]),
@@ -442,6 +444,23 @@ def build_dict(case):
         e = self
         for i in range(len(kf)):
             setattr(e.d.key, f"k{i}", getattr(e, f"ik{i}"))
+        # count-or-insert, the classic use of a table: look the entry up,
+        # read (and count in) the entry found, else fill the value buffer and
+        # insert; members are touched through the entry first, through the
+        # buffer afterwards
+        with e.op == 6:
+            with e.d.lookup() as (value, Else):
+                e.found = 1
+                e.ov0 = value.v0
+                if vf[0] in "iIqQ":
+                    value.v0 += 1
+            with Else:
+                e.missed = 1
+                for i in range(len(vf)):
+                    setattr(e.d.value, f"v{i}", getattr(e, f"iv{i}"))
+                e.d.update()
+            e.r0 = 2
+            e.exit()
         for flagname, opno in (("ANY", 1), ("NOEXIST", 2), ("EXIST", 3)):
             with e.op == opno:
                 for i in range(len(vf)):
@@ -728,6 +747,29 @@ def check_dict(case, res, monitor=False):
                             return fail("unexplained:dict-bpf-lookup-value",
                                         f"program read {got}, model {want}",
                                         op) or mon
+                elif op[0] == "bpf_upsert":
+                    bpf_inputs(op[1], op[2], op=6)
+                    ld.run_k(bytes(64))
+                    res.count("dict_count_or_insert")
+                    if (e.found, e.missed) != ((1, 0) if kb in model
+                                               else (0, 1)):
+                        return fail("unexplained:dict-bpf-lookup-branch",
+                                    "count-or-insert: wrong branch",
+                                    op) or mon
+                    if kb in model:
+                        b = bytearray(model[kb])
+                        cur = struct.unpack_from("<" + vf[0], b,
+                                                 vlay[0][0])[0]
+                        if e.ov0 != cur:
+                            return fail("unexplained:dict-bpf-lookup-value",
+                                        f"count-or-insert read {e.ov0}, "
+                                        f"model {cur}", op) or mon
+                        if vf[0] in "iIqQ":
+                            struct.pack_into("<" + vf[0], b, vlay[0][0],
+                                             sx(cur + 1, vf[0]))
+                        model[kb] = bytes(b)
+                    else:
+                        model[kb] = pack_struct(vf, op[2])
                 elif op[0] == "bpf_touch":
                     bpf_inputs(op[1], op=5)
                     e.hnew = op[2]
